@@ -127,6 +127,42 @@ fn transfer_msg(w: &World, role: &str, to: &str, combo: bool) -> (Addr, Value) {
     }
 }
 
+/// `msg` with one string argument at a time replaced by the sender's own address (numeric strings and strings that
+/// already name the sender are left alone)
+fn self_naming_variants(msg: &Value, sender: &str) -> Vec<Value> {
+    fn paths(v: &Value, cur: &mut Vec<String>, out: &mut Vec<Vec<String>>) {
+        match v {
+            Value::Object(m) => {
+                for (k, x) in m {
+                    cur.push(k.clone());
+                    paths(x, cur, out);
+                    cur.pop();
+                }
+            }
+            Value::String(s) if !s.is_empty() && s.parse::<u128>().is_err() && !s.starts_with('-') => out.push(cur.clone()),
+            _ => {}
+        }
+    }
+    let mut ps = vec![];
+    paths(msg, &mut vec![], &mut ps);
+    let mut out = vec![];
+    for p in ps {
+        let mut m = msg.clone();
+        {
+            let mut x = &mut m;
+            for k in &p {
+                x = &mut x[k.as_str()];
+            }
+            if x.as_str() == Some(sender) {
+                continue;
+            }
+            *x = Value::String(sender.to_string());
+        }
+        out.push(m);
+    }
+    out
+}
+
 /// who signs a transfer of `role`
 fn transfer_signer(roles: &Roles, role: &str) -> String {
     match role {
@@ -419,7 +455,8 @@ impl Model for RoleModel {
         // the deployer, a trader, a stranger, and every address that appears in an instantiate message
         // without holding a role ("oracle_hub" = the price feeds' oracle_hub_contract, "insurance_fund" = the
         // engine's placeholder insurance fund before UpdateConfig)
-        for x in ["owner", "alice", "stranger", "oracle_hub", "insurance_fund"] {
+        // ... and "carol", the address the set-up whitelisted: an address *named in* privileged state holds no role
+        for x in ["owner", "alice", "stranger", "oracle_hub", "insurance_fund", "carol"] {
             senders.insert(x.into());
         }
         senders.insert(w.engine.to_string());
@@ -464,6 +501,21 @@ impl Model for RoleModel {
                             format!("C09:unauthorised-accepted:{}:{}:{}", c.contract, c.variant, sender_kind(w, &roles, sname, &c.allowed)),
                             format!("{} is not allowed to call {}::{} (allowed {:?}) yet ok={} store changed={} ", sname, c.contract, c.variant, allowed, o.ok, changed),
                         );
+                    }
+                    // a non-holder is refused whatever the arguments: the same message with each address-like
+                    // argument naming the sender itself (renouncing "its own" entry, claiming the role for itself)
+                    for m2 in self_naming_variants(&c.msg, sname) {
+                        w.restore(&post);
+                        let o = w.exec_json(sname, &c.addr, &m2);
+                        out.executions += 1;
+                        out.tag("c09:non-holder-self-naming-evaluations");
+                        let changed = w.store.0.borrow().clone() != post.kv;
+                        if o.ok || changed {
+                            out.viol(
+                                format!("C09:unauthorised-accepted:{}:{}:{}", c.contract, c.variant, sender_kind(w, &roles, sname, &c.allowed)),
+                                format!("{} is not allowed to call {}::{} (allowed {:?}) yet naming itself in {} ok={} store changed={} ", sname, c.contract, c.variant, allowed, m2, o.ok, changed),
+                            );
+                        }
                     }
                 }
             }
